@@ -54,6 +54,13 @@ func conjuncts(goal string, hyps []string) [][2]string {
 		if len(args) == 2 {
 			return conjuncts(args[1], append(append([]string(nil), hyps...), args[0]))
 		}
+	case "or":
+		// (or A (and ...)): treat "not A" as a hypothesis
+		if len(args) == 2 {
+			if op2, _ := splitSexp(args[1]); op2 == "and" {
+				return conjuncts(args[1], append(append([]string(nil), hyps...), "(not "+args[0]+")"))
+			}
+		}
 	}
 	h := "true"
 	if len(hyps) > 0 {
